@@ -371,12 +371,20 @@ type lpResult struct {
 	messages  [][]byte // bodies of complete client messages
 	kit       *kit
 	leftovers delivered
+	// heldEOM: with cut class "late-eom" the trailing header-only
+	// end-of-message packet of the last reply is held back; the caller
+	// releases it after looking at the state Login left behind
+	heldEOM []byte
 }
 
 type lpOptions struct {
 	CutSeed  string
-	CutClass string // one-packet | random | one-byte | per-package
+	CutClass string // one-packet | random | one-byte | per-package | late-eom
 	Timeout  time.Duration
+	// Overtake: the first packet of every reply is processed by the reader
+	// before the client's write call of its last request packet returns (a
+	// fast server); the rest of the reply follows.
+	Overtake bool
 }
 
 func lpPacketize(rnd *rt.Rand, items []lpItem, class string) [][]byte {
@@ -433,7 +441,34 @@ func lpRun(seed int64, s lpScript, cfg *tds.LoginConfig, opt lpOptions) lpResult
 		round++
 		mu.Unlock()
 		if r < len(s.Rounds) {
-			k.tr.Feed(lpPacketize(rnd, s.Rounds[r], opt.CutClass)...)
+			var pkts [][]byte
+			if opt.CutClass == "late-eom" {
+				var body []byte
+				for _, it := range s.Rounds[r] {
+					body = append(body, it.B...)
+				}
+				if len(body) > 0 {
+					pkts = c02Packets(body, nil, nil, true) // body packet without EOM + header-only EOM packet
+					if r == len(s.Rounds)-1 {
+						mu.Lock()
+						res.heldEOM = pkts[len(pkts)-1]
+						mu.Unlock()
+						pkts = pkts[:len(pkts)-1]
+					}
+				}
+			} else {
+				pkts = lpPacketize(rnd, s.Rounds[r], opt.CutClass)
+			}
+			if opt.Overtake && len(pkts) >= 2 {
+				k.tr.Feed(pkts[0])
+				awaitIdle(k.tr, 20*time.Second)
+				k.tr.Feed(pkts[1:]...)
+			} else if opt.Overtake && len(pkts) == 1 {
+				k.tr.Feed(pkts[0])
+				awaitIdle(k.tr, 20*time.Second)
+			} else {
+				k.tr.Feed(pkts...)
+			}
 		}
 	}
 	ctx, cancel := context.WithTimeout(k.ctx, opt.Timeout)
